@@ -70,6 +70,14 @@ CLAIMED = {
             "the offset of the corrupted value (type-local offset for values inside a type).",
             "Exhaustive over the enumerated rule families and 15 contexts only; Check rejecting an obeying schema is counted, not judged "
             "(that is C08's matrix).", "3/C04"),
+    "C15": ("TLC trace validation (TraceSem): the RFC 8259 recogniser of JsonText and the denotational requirement Sem!Verdict are evaluated by TLC "
+            "on the bytes / parsed value of every real Example() call over the TLC-enumerated schema domains",
+            "For every Check-accepted schema of the GenTypes, GenRules, GenShape and GenExample domains (user types, or-alternatives of which only "
+            "a later one terminates, key shortcuts, enum rules, allOf, optional recursion through first/middle/last property and array items, keys "
+            "needing escapes) TLC decides that the returned bytes are one well-formed JSON text, that the requirement accepts the parsed value, "
+            "and for plain-JSON schemas that the value is the example itself with no blank outside strings.",
+            "Bytes are parsed into the abstract value by the harness (encoding/json token stream, order and numeral spelling kept) - TLC checks "
+            "well-formedness independently on the raw bytes; exhaustive only over the enumerated domains.", "3/C15"),
 }
 
 PENDING_REASON = "check under construction in this session - not claimed yet (no technique switch intended; see DESIGN.md section 3)"
